@@ -12,7 +12,7 @@ import (
 
 func init() {
 	register(&Prop{
-		ID: "C17",
+		ID:          "C17",
 		Explanation: "PARTIAL claim — decides four structural conditions of faithful proxying, not routing or byte fidelity as behaviour: (1) stores into the request line, host and body of an *http.Request (Method, URL, RequestURI, Host, Body, and fields of the URL reached from a request) occur, in production code, only in pkg/upstream (rewrite, director, unix round-tripper) or on values that are clones/new requests; (2) between the outer handler and the upstream no production code reachable from the pass path parses or consumes the body (ParseForm/FormValue/PostFormValue/ParseMultipartForm/MultipartReader/Body reads) outside the reviewed login endpoints; (3) the registration-order comparator puts a rewrite rule before a plain one only when the other has no rewrite target and otherwise orders by longer path, on every true-returning path; (4) the rewrite query merge only appends rewritten values to the client's query (url.Values.Add), never overwrites or replaces entries.",
 		NotDecided:  "longest-prefix routing of gorilla/mux over all paths, percent-encoding fidelity through RequestURI/URL.Path/RawPath, response relay by httputil.ReverseProxy, header pass-through: behaviour of third-party routers over all inputs.",
 		Run:         runC17,
@@ -111,9 +111,9 @@ func runC17(c *Ctx) {
 	rule = "R2-body-untouched"
 	consuming := map[string]bool{"ParseForm": true, "FormValue": true, "PostFormValue": true, "ParseMultipartForm": true, "MultipartReader": true, "FormFile": true}
 	reviewedBody := map[string]string{
-		"(*main.OAuthProxy).ManualSignIn":                       "sign-in form endpoint: reads username/password of a POST to /oauth2/sign_in, never proxied",
-		"(*main.OAuthProxy).OAuthCallback":                      "callback endpoint: reads code/state, never proxied",
-		"(*pkg/app/redirect.appDirector).GetRedirect":           "parses the form to read rd; called from sign-in/start/sign-out/error paths only (R2b checks it is not on the pass path)",
+		"(*main.OAuthProxy).ManualSignIn":             "sign-in form endpoint: reads username/password of a POST to /oauth2/sign_in, never proxied",
+		"(*main.OAuthProxy).OAuthCallback":            "callback endpoint: reads code/state, never proxied",
+		"(*pkg/app/redirect.appDirector).GetRedirect": "parses the form to read rd; called from sign-in/start/sign-out/error paths only (R2b checks it is not on the pass path)",
 	}
 	R := c.requestReachable(rule)
 	proxy := c.Fn(rule, "(*main.OAuthProxy).Proxy")
